@@ -387,7 +387,7 @@ class Check(object):
             print('VIOLATION property=%s replay=%s%s' % (
                 self.pid, v['replay'], tail))
             print('  obligation %s: %s' % (v['obligation'], v['what']))
-        for u in self.undecided:
+        for u in sorted(set(self.undecided))[:15]:
             print('UNDECIDED %s' % u)
         for e in self.errors:
             print('CHECKER-ERROR %s' % e)
